@@ -962,9 +962,11 @@ PROPS["C05"] = {
                       "get_diffuse", "Tie.Diffusion.bmat3_ramp_tie"],
     "partial": ["proved: the regenerated compute_bmatrix / diffusion_operator expressions are the model's, the model's b-matrices are "
                 "the time integrals of k k^T (constant and linear ramp), scalar = isotropic, k = 0 unattenuated, b-matrices add along "
-                "a pathway, D acts state-wise on the coordinate table; the statement 'signal = sum over pathways' itself is decided "
-                "by the explicit pathway enumeration on the real code, not by a theorem (linearity of the EPG makes it follow from "
-                "the state-wise action, but the pathway expansion is not formalised)"],
+                "a pathway, D acts state-wise on the coordinate table, and the pathway expansion itself (`pathway_expansion`: the "
+                "operator of a sequence of RF pulses / shifts / diagonal steps is the sum over all choices of one elementary "
+                "transition per step of the composed pieces; attenuations compose by `diag_comp`). Not proved: the closed form "
+                "of one pathway's amplitude on a delta state, and relaxation's recovery term inside the expansion; both are "
+                "covered by the explicit pathway enumeration on the real code"],
 }
 
 PROPS["C15"] = {
@@ -1015,7 +1017,7 @@ EXTRA_MODULES = {
     "C02": ["EpgVerif.Tie.DiffSites", "EpgVerif.Props.C02Run"],
     "C03": ["EpgVerif.Tie.DiffSites"],
     "C04": ["EpgVerif.Tie.ShiftSites"],
-    "C05": ["EpgVerif.Tie.PhysSites"],
+    "C05": ["EpgVerif.Tie.PhysSites", "EpgVerif.Props.C05Path"],
     "C06": ["EpgVerif.Tie.PhysSites", "EpgVerif.Tie.Exchange"],
     "C07": ["EpgVerif.Tie.ApplySites"],
     "C08": ["EpgVerif.Tie.ApplySites"],
